@@ -49,7 +49,7 @@ for (label, f, old, new, n) in MUT:
     p = subprocess.run([V + "/vx/target/release/vx", M, V + "/contracts/sig.vx", "/tmp/sigm/sig.rs", "/tmp/sigm/sig.json"], capture_output=True, text=True)
     if p.returncode != 0:
         print(label, "-> vx UNDECIDED:", p.stderr.strip().split("\n")[-1]); continue
-    p = subprocess.run(["verus", "sig.rs", "--rlimit", "100", "--triggers-mode", "silent", "--multiple-errors", "20"], capture_output=True, text=True, cwd="/tmp/sigm", timeout=1800)
+    p = subprocess.run(["verus", "sig.rs", "--rlimit", os.environ.get("SIG_RLIMIT", "100"), "--triggers-mode", "silent", "--multiple-errors", "20"], capture_output=True, text=True, cwd="/tmp/sigm", timeout=1800)
     gen = open("/tmp/sigm/sig.rs").read().split("\n")
     lines = p.stderr.split("\n"); fails = []
     for i, l in enumerate(lines):
